@@ -105,8 +105,10 @@ class Workspace:
         if not os.path.exists(dst):
             shutil.copy2(os.path.join(VERIF, "native", "verif_runner.rs"), dst)
             shutil.copy2(os.path.join(VERIF, "kani", "c18_reference.rs"), os.path.join(self.crate, "src", "verif_c18_reference.rs"))
+            self.stamp = "%s-%s" % (self.src_hash, os.path.basename(self.root))
             with open(os.path.join(self.crate, "src", "repl.rs"), "a") as f:
-                f.write("\n#[doc(hidden)]\npub fn __verif_check_bracket_closed(s: &str) -> bool {\n    check_bracket_closed(s.chars())\n}\n")
+                f.write("\n#[doc(hidden)]\npub fn __verif_check_bracket_closed(s: &str) -> bool {\n    check_bracket_closed(s.chars())\n}\n"
+                        "#[doc(hidden)]\npub const __VERIF_STAMP: &str = \"%s\";\n" % self.stamp)
         env = dict(ENV, CARGO_TARGET_DIR=os.path.join(CACHE, "target-native"), RUSTFLAGS="-Awarnings")
         cmd = ["cargo", "build", "--offline", "--bin", "verif_runner"] + (["--release"] if profile == "release" else [])
         # the dependency cache is shared between concurrently running checks: build and take a private copy of the
@@ -122,8 +124,20 @@ class Workspace:
             shutil.copy2(exe, mine)
         self.timing["native_build_%s_s" % profile] = round(time.time() - t, 2)
         r = NativeRunner(mine)
-        if r.cmd("ping") != "OK pong":
-            raise Broken("native runner does not answer")
+        pong = r.cmd("ping")
+        if pong != "OK pong " + self.stamp:
+            # the binary is not the one built from this copy of the sources (shared dependency cache raced): rebuild privately
+            r.close()
+            env2 = dict(env, CARGO_TARGET_DIR=os.path.join(self.root, "target-private"))
+            rc, out, err = sh(cmd, cwd=self.crate, env=env2)
+            if rc != 0:
+                raise Broken("native runner build failed:\n" + err[-4000:])
+            shutil.copy2(os.path.join(self.root, "target-private", "release" if profile == "release" else "debug", "verif_runner"), mine)
+            r = NativeRunner(mine)
+            pong = r.cmd("ping")
+            if pong != "OK pong " + self.stamp:
+                raise Broken("native runner is not built from the sources under test (got %r, want stamp %s)" % (pong, self.stamp))
+            self.timing["native_private_rebuild"] = True
         self.runners[profile] = r
         return r
 
@@ -142,10 +156,27 @@ class NativeRunner:
         self.calls += 1
         if self.p.poll() is not None:
             self._start()
+        import select
         try:
             self.p.stdin.write((line + "\n").encode())
             self.p.stdin.flush()
-            out = self.p.stdout.readline().decode("utf-8", "replace").strip()
+            buf = b""
+            deadline = time.time() + float(os.environ.get("VERIF_NATIVE_TIMEOUT_S", "60"))
+            while not buf.endswith(b"\n"):
+                left = deadline - time.time()
+                if left <= 0:
+                    self.p.kill()
+                    self.p.wait()
+                    self._start()
+                    return "TIMEOUT"
+                r, _, _ = select.select([self.p.stdout], [], [], left)
+                if not r:
+                    continue
+                ch = os.read(self.p.stdout.fileno(), 65536)
+                if not ch:
+                    break
+                buf += ch
+            out = buf.decode("utf-8", "replace").strip()
         except BrokenPipeError:
             out = ""
         if not out:
